@@ -1,4 +1,5 @@
 import Pm.ReplyProof
+import Pm.QueryEx
 /-! # C03 — status queries report exactly what the devices answered  (reply side: `client.c`)
 
 About the real `finalReply` / `install` of `Pm/Daemon.lean`, for every command `c : CmdC` (any target list,
@@ -13,7 +14,8 @@ expressions inside `finalReply`):
   (finding F19): `finalReply` is then `none`, the daemon is gone;
 * `Covered c` — every target has an arglist element (true of commands made by `install`, `C03_fresh`).
 
-What a device wrote into the arglist, and when, is the device side (`Pm/Dev2*.lean`) and is not covered here. -/
+What a device wrote into the arglist, and when, is the device side; the second half of this file (`## over whole runs`)
+composes it with the reply side: the reply of a query shows, node by node, what the actions *of this very command* wrote. -/
 namespace Pm.Props.C03
 open Pm Pm.Client Pm.Daemon
 open Pm.Daemon.Reply
@@ -194,5 +196,376 @@ example : ((install wI cI .status namesI).2.cmd.map fun k => (k.al, k.pending, k
   decide +kernel
 example : (storeArgs (install wI cI .status namesI).1 5).map (·.node) = [bstr "t1", bstr "t2"] ∧
     (install wI cI .status namesI).1.alNext = 6 := by decide +kernel
+
+/-! ## over whole runs
+
+**Runs.**  `PassX` = the kernel's answers of a pass (`PassIn`) together with the recorded `regexec` answers its device phase
+will consume; `runX w qs` the world after the passes `qs`, `feed w rx` the world with the answers handed over (what the
+driver does between passes).  (`Isolation.runPasses`, used by the end-to-end part of `Props/C02`, is the special case in
+which no pass brings an answer — there every `expect` after the first pass of the run fails; see `C03_run_defs`.)
+`AliveX w qs`: no pass ends in a modelled assertion; `runFinsX w qs g`: the completions (device, outcome) the run reports
+for client `g`.  `Inv` is the invariant of `C02_pending_is_queued`.
+
+**The history of writes.**  `setplugstate` and `setresult` are the only statements that write an arglist.  A write event
+`WEv` records: the device whose turn it was (`dev`), the action that executed the statement (`cid`, `al`, `com`: client id,
+arglist id, script slot), the plug and node concerned, what was written (`kind`: a state or a result), the captured text
+that was interpreted and stored as the cell's value (`text`) and the subject of the regex match it was cut from
+(`subject`: the device's match register at that moment).  `runEvX w qs` is the list of the writes of the run, oldest first:
+a *function of the run* defined beside the model (`Pm/QueryEv.lean`, `Pm/QueryRun.lean`: for every mirror function on the
+path `_process_stmt` … `dev_post_poll` … `_select_loop` a ghost function with the same arguments and control flow; the
+model is not touched), and faithful: the store after is the store before with the writes applied in order
+(`C03_writes_are_the_store`).  `hist w qs A` = the writes of the run to arglist `A`.
+
+**Reading the history.**  `lastState H n` / `lastText H n`: the state / the text of the last write of `H` that concerns node
+`n` (`n` in byte form); `entryOf H n` the entry shown for target `n`: state = that of `lastState` (unknown if none), value =
+`lastText`; `replyCmd k err H` the command as `finalReply` sees it: `k`'s targets, the flag `err`, and a *fresh* arglist for
+`k`'s targets with the writes `H` applied.  `Mine cfg g A ev`: the write `ev` was made by an action of client `g` carrying
+the arglist id `A`, in the turn of a device of the table `cfg` (`C03_write_spelled`). -/
+section runs
+open Pm.Daemon.QRun Pm.Daemon.E2E
+open Pm.Dev2.QEv
+open Pm.Dev2 (Dev Action Oracle Plug PState)
+
+/-- what the vocabulary is -/
+theorem C03_run_defs (w : W) (q : PassX) (qs : List PassX) (g A : Nat) :
+    runX w (q :: qs) = runX (stepX w q) qs ∧ runX w [] = w ∧ stepX w q = (daemonPass (feed w q.rx) q.p).1 ∧
+    (feed w q.rx).pendingX = w.pendingX ++ q.rx ∧
+    runEvX w (q :: qs) = passEv (feed w q.rx) q.p ++ runEvX (stepX w q) qs ∧ runEvX w [] = [] ∧
+    hist w qs A = (runEvX w qs).filter (fun ev => ev.al == A) ∧
+    runFinsX w (q :: qs) g = passFins (feed w q.rx) q.p g ++ runFinsX (stepX w q) qs g ∧
+    (AliveX w (q :: qs) ↔ passDead (feed w q.rx) q.p = false ∧ AliveX (stepX w q) qs) ∧
+    (∀ ps : List PassIn, runX w (ps.map fun p => ⟨p, []⟩) = Isolation.runPasses w ps) :=
+  ⟨rfl, rfl, rfl, rfl, rfl, rfl, rfl, rfl, Iff.rfl, fun ps => runX_runPasses w ps⟩
+
+/-- **The history is faithful.**  One statement: the store after it is the store before with the statement's write (none, or
+    one) applied.  One device's `dev_post_poll`: the store before with the turn's writes applied in order.  A pass: the store
+    the client phase left (which writes no cell: it only opens fresh arglists under new ids, `C03_accepted_fresh`) with the
+    writes of the device phase applied in order.  A run, for an arglist `A` that exists when it begins: what it was, with
+    the writes of the run *to that arglist* applied in order — writes to other arglists do not count. -/
+theorem C03_writes_are_the_store :
+    (∀ (d : Dev) (a : Action) (o : Oracle) (now : Nat),
+      (Pm.Dev2.processStmt d a o now).dev.args = (stmtEv d a o).foldl applyStore d.args) ∧
+    (∀ (d : Dev) (env : Pm.Dev2.Env) (o : Oracle), (Pm.Dev2.postPoll d env o).1.dev.args = (postPollEv d env o).foldl applyStore d.args) ∧
+    (∀ (w : W) (p : PassIn), (daemonPass w p).1.store = (passEv w p).foldl applyStore (cliPostPoll w p.acc p.envs).store) ∧
+    (∀ (w : W) (qs : List PassX) (A : Nat), Inv w → AliveX w qs → A < w.alNext →
+      storeArgs (runX w qs) A = (hist w qs A).foldl applyEv (storeArgs w A)) :=
+  ⟨processStmt_args, postPoll_args, daemonPass_store, fun w qs A h ha hA => runX_cell w qs A h ha hA⟩
+
+/-- what a write does to an arglist: the elements of the event's node get the state (or the result) and the text; every
+    other element is left as it is -/
+theorem C03_write_cells (as : List Pm.Dev2.Arg) (ev : WEv) :
+    applyEv as ev = as.map (upd ev) ∧
+    (∀ g, g.node ≠ ev.node → upd ev g = g) ∧
+    (∀ g st, g.node = ev.node → ev.kind = .state st → upd ev g = { g with state := st, val := some ev.text }) ∧
+    (∀ g r, g.node = ev.node → ev.kind = .result r → upd ev g = { g with result := r, val := some ev.text }) := by
+  refine ⟨rfl, ?_, ?_, ?_⟩
+  · intro g h; simp [upd, h]
+  · intro g st h hk; simp [upd, h, hk]
+  · intro g r h hk; simp [upd, h, hk]
+
+/-- **A write, spelled out** (`Mine cfg g A ev`).  The write was made in the turn of a device `x` of the table (it carries the
+    device's name), in a state `d` of that device (its own plug list), for an action `a` of client `g` that carries the
+    arglist id `A`.  The statement `a` stood at is a `setplugstate` whose plug name — literal, capture or script argument —
+    is a plug of the device wired to `ev.node`, or a `setresult` whose capture names such a plug; `ev.text` is the status
+    capture of the device's last successful regex match (`subOf d`), a piece of that match's subject; the state (result)
+    written is that of the first interpretation matching the text (`C08_first_matching_interp`).
+    NOTE what this does *not* say: that the match was made during this command.  The match register belongs to the device
+    and is recycled only by the next `expect`: see `C03_stale_match_counterexample`. -/
+theorem C03_write_spelled (cfg : List (Bytes × List Plug)) (g A : Nat) (ev : WEv) (h : Mine cfg g A ev) :
+    ev.cid = g ∧ ev.al = A ∧
+    ∃ x ∈ cfg, ev.dev = x.1 ∧ ∃ (d : Dev) (a : Action) (o : Oracle) (plug : Plug),
+      d.plugs = x.2 ∧ a.clientId = g ∧ a.arglist = A ∧ ev.com = a.com ∧
+      plug ∈ x.2 ∧ plug.name = ev.plug ∧ plug.node = some ev.node ∧ ev.subject = d.xmStr ∧
+      (∃ subj, d.xmStr = some subj ∧ ev.text <:+: subj) ∧
+      ((∃ lit pm sm is pn, (Pm.Dev2.topCtx a).block[(Pm.Dev2.topCtx a).pos]? = some (Pm.Dev2.Stmt.setplugstate lit pm sm is) ∧
+          Pm.Dev2.Interp.chosenName d lit pm (Pm.Dev2.Interp.ctxName (Pm.Dev2.topCtx a).plugs) = some pn ∧
+          Pm.Dev2.findPlug d pn = some plug ∧ Pm.Dev2.subOf d sm = some ev.text ∧
+          ev.kind = .state (Pm.Dev2.pickState Pm.Dev2.askRx ev.text is o []).2.1) ∨
+       (∃ pm sm is pn, (Pm.Dev2.topCtx a).block[(Pm.Dev2.topCtx a).pos]? = some (Pm.Dev2.Stmt.setresult pm sm is) ∧
+          Pm.Dev2.subOf d pm = some pn ∧ Pm.Dev2.findPlug d pn = some plug ∧ Pm.Dev2.subOf d sm = some ev.text ∧
+          ev.kind = .result (Pm.Dev2.pickResult Pm.Dev2.askRx ev.text is o []).2.1)) :=
+  mine_spelled h
+
+/-- **A command accepted in a pass starts from nothing.**  If client `g` has no command (or is not there yet) when the pass
+    begins, then whatever command `k` it has when the client phase of the pass is over has an arglist id that had not been
+    handed out when the pass began, a clear error flag, and its arglist — as it stands in the store at that moment — is
+    `freshArgs` of `k`'s own target list: one element per distinct target, state unknown, no result, no value
+    (`C03_fresh`).  The client phase changes no arglist that already exists. -/
+theorem C03_accepted_fresh (w : W) (p : PassIn) (g : Nat) (h : Inv w)
+    (hidle : ∀ c k, cliRec w g = some c → c.cmd = some k → False) :
+    (∀ c k, cliRec (cliPostPoll w p.acc p.envs) g = some c → c.cmd = some k →
+      storeArgs (cliPostPoll w p.acc p.envs) k.al = freshArgs (k.names.map ofChars) ∧ w.alNext ≤ k.al ∧ k.error = false) ∧
+    (∀ A, A < w.alNext → storeArgs (cliPostPoll w p.acc p.envs) A = storeArgs w A) := by
+  refine ⟨fun c k hc hk => ?_, fun A hA => ?_⟩
+  · obtain ⟨h1, h2⟩ := cliPostPoll_fresh_cells w p.acc p.envs g h hidle c k hc hk
+    exact ⟨h1, h2, cliPostPoll_fresh w p.acc p.envs g h hidle c k hc hk⟩
+  · unfold storeArgs; rw [(cliPostPoll_lookup w p.acc p.envs A h hA).1]
+
+/-- **C03, justified — from the accepted request to the reply.**  Client `g` has no command in `w0` (invariant `Inv`).  In
+    the client phase of pass `q0` a request of `g` is accepted: `k` is its command, `c1` its record, when that phase is
+    over.  Passes `qs` follow, then pass `q`; no pass ends in an assertion; other clients come, go and ask what they like,
+    devices answer, fail or stay silent.  Before `q` the command (identified by its arglist id, which is never reused) is
+    still in progress, after it the client is there and idle.  Let `H = hist w0 (q0 :: qs ++ [q]) k.al` be the writes of the
+    whole run to `k`'s arglist and `F` the completions the run reported for `g`.  Then:
+    1. `F` has exactly `k.pending` elements: one per action the request enqueued;
+    2. in pass `q` the client (`c2`: its record when the client phase of `q` is over) was sent the `305`/`308`/`309` lines of
+       that pass, then the reply `r`, then the prompt, and nothing else; `r` is `finalReply` of `replyCmd k (F.any failed) H`:
+       `k`'s targets, the error flag "some completion of the run failed", and the arglist a **fresh** one for `k`'s targets
+       becomes under the writes `H` — the cells as they are after the last completion, and nothing the store held before
+       the request, nothing written under another arglist id, enters;
+    3. the entries of the reply (one `303` line each with `-x`; the members of the three lists without) are `entryOf H n`
+       for the targets `n` in order: state and value of the *last* write of `H` for that node, `unknown` / no value if
+       there is none (`C03_shown_only_if_written`);
+    4. every write of `H` was made by an action of client `g` carrying `k`'s arglist id — an action this very request
+       enqueued — in the turn of a device of the configuration (`C03_write_spelled`).
+    (The target names are byte strings: true of every name that comes from client input through `toChars`,
+    `C03_byte_names`.) -/
+theorem C03_justified (w0 : W) (q0 : PassX) (qs : List PassX) (q : PassX) (g : Nat) (c1 : Cli) (k : CmdC) (c' : Cli)
+    (hinv : Inv w0) (ha : AliveX w0 (q0 :: (qs ++ [q])))
+    (hidle0 : ∀ c k, cliRec w0 g = some c → c.cmd = some k → False)
+    (hc1 : cliRec (cliPostPoll (feed w0 q0.rx) q0.p.acc q0.p.envs) g = some c1) (hk : c1.cmd = some k)
+    (hb : ∀ n ∈ k.names, ByteName n)
+    (hbusy : ∃ c k', cliRec (runX w0 (q0 :: qs)) g = some c ∧ c.cmd = some k' ∧ k'.al = k.al)
+    (hidle : cliRec (runX w0 (q0 :: (qs ++ [q]))) g = some c') (hnone : c'.cmd = none) :
+    (runFinsX w0 (q0 :: (qs ++ [q])) g).length = k.pending ∧
+    (∃ c2 r, cliRec (cliPostPoll (feed (runX w0 (q0 :: qs)) q.rx) q.p.acc q.p.envs) g = some c2 ∧
+      finalReply c2.exprange (replyCmd k ((runFinsX w0 (q0 :: (qs ++ [q])) g).any failed) (hist w0 (q0 :: (qs ++ [q])) k.al)) = some r ∧
+      c'.toBuf = c2.toBuf ++ passText (feed (runX w0 (q0 :: qs)) q.rx) q.p g ++ r ++ prompt) ∧
+    entriesOf (replyCmd k ((runFinsX w0 (q0 :: (qs ++ [q])) g).any failed) (hist w0 (q0 :: (qs ++ [q])) k.al)) =
+      k.names.map (entryOf (hist w0 (q0 :: (qs ++ [q])) k.al)) ∧
+    (∀ ev ∈ hist w0 (q0 :: (qs ++ [q])) k.al, Mine (plugsOf w0.devs) g k.al ev) :=
+  query_answer w0 q0 qs q g c1 k c' hinv ha hidle0 hc1 hk hb hbusy hidle hnone
+
+/-- the same when the pass that accepts the request also answers it -/
+theorem C03_justified_one_pass (w0 : W) (q0 : PassX) (g : Nat) (c1 : Cli) (k : CmdC) (c' : Cli)
+    (hinv : Inv w0) (ha : AliveX w0 [q0])
+    (hidle0 : ∀ c k, cliRec w0 g = some c → c.cmd = some k → False)
+    (hc1 : cliRec (cliPostPoll (feed w0 q0.rx) q0.p.acc q0.p.envs) g = some c1) (hk : c1.cmd = some k)
+    (hb : ∀ n ∈ k.names, ByteName n)
+    (hidle : cliRec (runX w0 [q0]) g = some c') (hnone : c'.cmd = none) :
+    (runFinsX w0 [q0] g).length = k.pending ∧
+    (∃ r, finalReply c1.exprange (replyCmd k ((runFinsX w0 [q0] g).any failed) (hist w0 [q0] k.al)) = some r ∧
+      c'.toBuf = c1.toBuf ++ passText (feed w0 q0.rx) q0.p g ++ r ++ prompt) ∧
+    entriesOf (replyCmd k ((runFinsX w0 [q0] g).any failed) (hist w0 [q0] k.al)) = k.names.map (entryOf (hist w0 [q0] k.al)) ∧
+    (∀ ev ∈ hist w0 [q0] k.al, Mine (plugsOf w0.devs) g k.al ev) :=
+  query_answer_one_pass w0 q0 g c1 k c' hinv ha hidle0 hc1 hk hb hidle hnone
+
+/-- what `replyCmd` and `entryOf` are -/
+theorem C03_reply_defs (k : CmdC) (err : Bool) (H : List WEv) (n : Name) :
+    replyCmd k err H = { k with error := err, args := (H.foldl applyEv (freshArgs (k.names.map ofChars))).map argC } ∧
+    entryOf H n = { node := toChars (ofChars n), state := psNum ((lastState H (ofChars n)).getD .unknown),
+                    result := prNum ((lastResult H (ofChars n)).getD .none), val := lastText H (ofChars n) } ∧
+    lastState H (ofChars n) = (H.filterMap (stateOn (ofChars n))).getLast? ∧
+    lastText H (ofChars n) = (H.filterMap (textOn (ofChars n))).getLast? :=
+  ⟨rfl, rfl, rfl, rfl⟩
+
+/-- **A node is shown on, off or with a value only if a write of the history says so.**  For a target `n` and the entry
+    `entryOf H n` the reply shows for it:
+    * shown `on` (state 2) only if some write of `H` for `n`'s node wrote the state `on`, and no later write of `H` wrote
+      a state for that node; the same for `off`;
+    * if no write of `H` wrote a state for `n`'s node, `n` is shown `unknown` (state 0);
+    * a value `v` is shown only if some write of `H` for `n`'s node stored the text `v`, and no later write of `H`
+      concerns that node;
+    * if no write of `H` concerns `n`'s node at all, the entry is the fresh one: unknown, no result, no value. -/
+theorem C03_shown_only_if_written (H : List WEv) (n : Name) :
+    ((entryOf H n).state = 2 → ∃ pre ev post, H = pre ++ ev :: post ∧ ev.node = ofChars n ∧ ev.kind = .state .on ∧
+        ∀ x ∈ post, stateOn (ofChars n) x = none) ∧
+    ((entryOf H n).state = 1 → ∃ pre ev post, H = pre ++ ev :: post ∧ ev.node = ofChars n ∧ ev.kind = .state .off ∧
+        ∀ x ∈ post, stateOn (ofChars n) x = none) ∧
+    ((∀ ev ∈ H, stateOn (ofChars n) ev = none) → (entryOf H n).state = 0) ∧
+    (∀ v, (entryOf H n).val = some v → ∃ pre ev post, H = pre ++ ev :: post ∧ ev.node = ofChars n ∧ ev.text = v ∧
+        ∀ x ∈ post, x.node ≠ ofChars n) ∧
+    ((∀ ev ∈ H, ev.node ≠ ofChars n) → (entryOf H n).state = 0 ∧ (entryOf H n).result = 0 ∧ (entryOf H n).val = none) := by
+  refine ⟨fun h => lastState_some (entryOf_state_on.mp h), fun h => lastState_some (entryOf_state_off.mp h),
+    fun h => entryOf_state_unk.mpr (Or.inl (lastState_none h)), fun v h => lastText_some h, fun h => ?_⟩
+  have hs : ∀ ev ∈ H, stateOn (ofChars n) ev = none := fun ev hev => by simp [stateOn, h ev hev]
+  have hr : lastResult H (ofChars n) = none := by
+    unfold lastResult
+    rw [List.getLast?_eq_none_iff, List.filterMap_eq_nil_iff]
+    intro ev hev; simp [resultOn, h ev hev]
+  refine ⟨entryOf_state_unk.mpr (Or.inl (lastState_none hs)), ?_, lastText_none h⟩
+  show prNum ((lastResult H (ofChars n)).getD .none) = 0
+  rw [hr]; rfl
+
+/-- **C03, no memory.**  In the setting of `C03_justified`, for a target `n`: if no write of the run under *this command's*
+    arglist id concerns `n`'s node, the entry of `n` is the fresh one — state unknown, no value — whatever any earlier query
+    left for that node in its own arglist, and whatever the concurrent queries of other clients on the very same node wrote
+    into theirs during the run (their writes carry other arglist ids and are not in `hist … k.al`). -/
+theorem C03_no_memory (w0 : W) (q0 : PassX) (qs : List PassX) (q : PassX) (g : Nat) (c1 : Cli) (k : CmdC) (c' : Cli)
+    (hinv : Inv w0) (ha : AliveX w0 (q0 :: (qs ++ [q])))
+    (hidle0 : ∀ c k, cliRec w0 g = some c → c.cmd = some k → False)
+    (hc1 : cliRec (cliPostPoll (feed w0 q0.rx) q0.p.acc q0.p.envs) g = some c1) (hk : c1.cmd = some k)
+    (hb : ∀ n ∈ k.names, ByteName n)
+    (hbusy : ∃ c k', cliRec (runX w0 (q0 :: qs)) g = some c ∧ c.cmd = some k' ∧ k'.al = k.al)
+    (hidle : cliRec (runX w0 (q0 :: (qs ++ [q]))) g = some c') (hnone : c'.cmd = none)
+    (n : Name) (hn : n ∈ k.names)
+    (hnot : ∀ ev ∈ runEvX w0 (q0 :: (qs ++ [q])), ev.al = k.al → ev.node ≠ ofChars n) :
+    ∃ e ∈ entriesOf (replyCmd k ((runFinsX w0 (q0 :: (qs ++ [q])) g).any failed) (hist w0 (q0 :: (qs ++ [q])) k.al)),
+      e.node = n ∧ e.state = 0 ∧ e.val = none ∧
+      ∀ e' ∈ entriesOf (replyCmd k ((runFinsX w0 (q0 :: (qs ++ [q])) g).any failed) (hist w0 (q0 :: (qs ++ [q])) k.al)),
+        e'.node = n → e' = e := by
+  obtain ⟨_, _, hent, _⟩ := query_answer w0 q0 qs q g c1 k c' hinv ha hidle0 hc1 hk hb hbusy hidle hnone
+  rw [hent]
+  have hno : ∀ ev ∈ hist w0 (q0 :: (qs ++ [q])) k.al, ev.node ≠ ofChars n := by
+    intro ev hev
+    obtain ⟨h1, h2⟩ := List.mem_filter.mp hev
+    exact hnot ev h1 (by simpa using h2)
+  obtain ⟨h1, _, h3⟩ := (C03_shown_only_if_written (hist w0 (q0 :: (qs ++ [q])) k.al) n).2.2.2.2 hno
+  refine ⟨entryOf _ n, List.mem_map.mpr ⟨n, hn, rfl⟩, entryOf_node _ n (hb n hn), h1, h3, ?_⟩
+  intro e' he' hen
+  obtain ⟨m, hm, rfl⟩ := List.mem_map.mp he'
+  rw [entryOf_node _ m (hb m hm)] at hen
+  rw [hen]
+
+/-- **C03, reply shape at run level.**  The command `replyCmd k err H` from which the reply of `C03_justified` is computed
+    satisfies the hypotheses of `C03_partition` / `C03_x_agree` / `C03_temp_once` — every target has an arglist element,
+    every state is one of the three enumerators — so the reply is the three `302` lines (or one `303` line per target, or
+    the temperature lines) followed by the terminal line, and the three lists together are a rearrangement of the target
+    list; and the lists can be read off the history: `on` = the targets whose last state write says `on`, `off` likewise,
+    `unknown` = the rest; with a value = the targets some write concerns, without = the others. -/
+theorem C03_reply_shape (k : CmdC) (err : Bool) (H : List WEv) (hb : ∀ n ∈ k.names, ByteName n) :
+    Covered (replyCmd k err H) ∧ (∀ a ∈ (replyCmd k err H).args, a.state ≤ 2) ∧
+    (replyCmd k err H).com = k.com ∧ (replyCmd k err H).names = k.names ∧ (replyCmd k err H).error = err ∧
+    entriesOf (replyCmd k err H) = k.names.map (entryOf H) ∧
+    (onNodes (replyCmd k err H) ++ offNodes (replyCmd k err H) ++ unkNodes (replyCmd k err H)).Perm k.names ∧
+    onNodes (replyCmd k err H) = k.names.filter (fun n => lastState H (ofChars n) == some .on) ∧
+    offNodes (replyCmd k err H) = k.names.filter (fun n => lastState H (ofChars n) == some .off) ∧
+    unkNodes (replyCmd k err H) = k.names.filter (fun n => (lastState H (ofChars n)).getD .unknown == .unknown) ∧
+    tempValued (replyCmd k err H) = k.names.filter (fun n => (lastText H (ofChars n)).isSome) ∧
+    tempMissing (replyCmd k err H) = k.names.filter (fun n => (lastText H (ofChars n)).isNone) := by
+  obtain ⟨l1, l2, l3, l4, l5⟩ := replyCmd_lists k err H hb
+  have hcov := replyCmd_covered k err H hb
+  have hst := replyCmd_states k err H
+  exact ⟨hcov, hst, rfl, rfl, rfl, replyCmd_entries k err H hb,
+    (C03_partition { replyCmd k err H with com := .status } (Or.inl rfl) hst).2.2.2 hcov, l1, l2, l3, l4, l5⟩
+
+/-- **C03, unreachable is unknown.**  For the reply `r` of a query (`status`, `beacon`, `temp`) computed as in `C03_justified`
+    from the completions `F` of the run and the history `H` of the command's arglist:
+    * a target for whose node no action of the command got as far as a `setplugstate` that found its plug and its text —
+      because the device could not be reached, the action timed out or was aborted behind a failed one, or the answer was
+      missing — has no state write in `H`: it is in the `unknown` list and in neither of the others;
+    * the reply ends with `211 Query completed with errors` exactly when some completion of the run for this client is a
+      failure (expect time-out, connect or login time-out, aborted queue entry), and with `103 Query complete` exactly
+      when all are successes. -/
+theorem C03_unreachable_is_unknown (ex : Bool) (k : CmdC) (F : List (Bytes × Pm.Dev2.ActErr)) (H : List WEv) (r : Bytes)
+    (hq : k.com ∈ [Com.status, .beacon, .temp]) (hb : ∀ n ∈ k.names, ByteName n)
+    (hr : finalReply ex (replyCmd k (F.any failed) H) = some r) :
+    (∀ n ∈ k.names, (∀ ev ∈ H, stateOn (ofChars n) ev = none) →
+      n ∈ unkNodes (replyCmd k (F.any failed) H) ∧ n ∉ onNodes (replyCmd k (F.any failed) H) ∧
+      n ∉ offNodes (replyCmd k (F.any failed) H)) ∧
+    ((bstr "211 Query completed with errors" ++ crlf) <:+ r ↔ ∃ x ∈ F, x.2 ≠ .success) ∧
+    ((bstr "103 Query complete" ++ crlf) <:+ r ↔ ∀ x ∈ F, x.2 = .success) := by
+  refine ⟨?_, replyCmd_terminal ex k F H r hq hr⟩
+  intro n hn hnone
+  obtain ⟨l1, l2, l3, _⟩ := replyCmd_lists k (F.any failed) H hb
+  have h0 := lastState_none hnone
+  rw [l1, l2, l3]
+  simp [List.mem_filter, hn, h0]
+
+/-- **A device that cannot be talked to writes nothing.**  An iteration of `_process_action`'s loop that finds the device not
+    connected (the head action waits for the connection, or its connect time-out strikes), or the head action's deadline
+    passed (it is completed with a time-out, everything queued behind it is aborted), executes no statement and makes no
+    write; the loop ends there.  So a node whose device was not connected, or whose action ran out of time before its
+    `setplugstate`, has no write in the history of the command and is shown `unknown` (`C03_unreachable_is_unknown`). -/
+theorem C03_failed_turn_writes_nothing (fuel : Nat) (c : Pm.Dev2.CS) (o : Oracle) (out : List Pm.Dev2.Out) (tmo : Option Nat)
+    (h : c.dev.conn ≠ 2 ∨ ∃ a0 rest, c.dev.acts = a0 :: rest ∧
+      c.env.now ≥ (Pm.Dev2.stamp c.env.now a0).timeStamp.getD c.env.now + c.dev.timeout) :
+    processActionFEv fuel c o out tmo = [] ∧
+    (Pm.Dev2.processActionF fuel c o out tmo).1.dev.args = c.dev.args := by
+  have h1 := processActionFEv_nothing fuel c o out tmo h
+  refine ⟨h1, ?_⟩
+  rw [processActionF_args, h1]; rfl
+
+/-- **Where the text of a write comes from: the device's match register.**  (`reg d` = the four fields of `dev->xmatch`.)
+    1. A write made in the state a matching `expect` leaves carries, as its subject, the device's input buffer as it was when
+       that `expect` matched (NUL shown as 0xff); its text is a piece of that subject (`C03_write_spelled`).
+    2. No statement other than `expect` changes the register: between an action's `expect` and its `setplugstate` the
+       captured text stays what it was.
+    3. `_disconnect` empties the device's two buffers but leaves the register alone; nor is it reset when an action ends or
+       begins.  So a `setplugstate` that is *not* preceded by an `expect` of its own action reads what the last `expect` of
+       whichever action — of another command, possibly over an earlier connection — left: `C03_stale_match_counterexample`. -/
+theorem C03_match_register :
+    (∀ (d : Dev) (a a' : Action) (o o' : Oracle) (pat : Nat) (offs : List (Int × Int)), d.fromBuf ≠ [] →
+      (Pm.Dev2.askRx o pat (Pm.Dev2.Interp.rxSubject d.fromBuf)).2.1 = some offs →
+      ∀ ev ∈ stmtEv (Pm.Dev2.stmtExpect d a o pat).dev a' o', ev.subject = some (Pm.Dev2.Interp.rxSubject d.fromBuf)) ∧
+    (∀ (d : Dev) (a : Action) (o : Oracle) (now : Nat),
+      (∀ pat, (Pm.Dev2.topCtx a).block[(Pm.Dev2.topCtx a).pos]? ≠ some (.expect pat)) →
+      reg (Pm.Dev2.processStmt d a o now).dev = reg d) ∧
+    (∀ c : Pm.Dev2.CS, reg (Pm.Dev2.disconnectDev c).dev = reg c.dev) :=
+  ⟨stmtEv_after_expect, processStmt_reg, disconnectDev_reg⟩
+
+end runs
+
+/-! ### non-vacuity: the run of `Pm/QueryEx.lean`
+
+Device `A`, plug `1` ↦ node `a1`.  Client 1 connects (pass 1, world `Ex.w1`), sends `status a1` (pass `q2`: accepted, arglist 1);
+client 2 connects and sends `status a1` too (pass `q3`: arglist 2); the device says `1 on` (pass `q4`): client 1 is answered.
+Then the device says `1 off` (pass `q6`): client 2 is answered — same node, same time, another answer. -/
+section examples
+open Pm.Daemon.QRun Pm.Daemon.QRun.Ex Pm.Daemon.E2E Pm.Dev2.QEv
+
+/-- the hypotheses of `C03_justified` hold for client 1 … -/
+example : Inv w1 ∧ AliveX w1 (q2 :: ([q3] ++ [q4])) ∧ (∀ c k, cliRec w1 1 = some c → c.cmd = some k → False) ∧
+    cliRec (cliPostPoll (feed w1 q2.rx) q2.p.acc q2.p.envs) 1 = some c1 ∧ c1.cmd = some k1 ∧ (∀ n ∈ k1.names, ByteName n) ∧
+    (∃ c k', cliRec (runX w1 (q2 :: [q3])) 1 = some c ∧ c.cmd = some k' ∧ k'.al = k1.al) ∧
+    cliRec (runX w1 (q2 :: ([q3] ++ [q4]))) 1 = some c4 ∧ c4.cmd = none :=
+  ⟨inv1, alive4, idle1, hc1, hk1, k1_bytes, busy3, hc4, idle4⟩
+/-- … the history of its arglist is the one write its own action made, from the device's line `1 on`, and it is shown `on: a1` -/
+example : hist w1 (q2 :: ([q3] ++ [q4])) k1.al =
+      [{ dev := [65], cid := 1, al := 1, com := 2, plug := [49], node := [97, 49], kind := .state .on, text := bstr "on",
+         subject := some (bstr "1 on\n") }] ∧
+    c4.toBuf = bstr "001 2\r\npowerman> 302 on:      a1\r\n302 off:     \r\n302 unknown: \r\n103 Query complete\r\npowerman> " :=
+  ⟨hist4, buf4⟩
+example : ∀ ev ∈ hist w1 (q2 :: ([q3] ++ [q4])) k1.al, Mine (plugsOf w1.devs) 1 k1.al ev :=
+  (C03_justified w1 q2 [q3] q4 1 c1 k1 c4 inv1 alive4 idle1 hc1 hk1 k1_bytes busy3 hc4 idle4).2.2.2
+/-- client 2, whose query on the same node ran at the same time: the run's writes are client 1's (`on`, arglist 1) and client
+    2's (`off`, arglist 2); the history of client 2's arglist is its own write alone, and it is shown `off: a1` -/
+example : Inv w2 ∧ AliveX w2 (q3 :: ([q4, q5] ++ [q6])) ∧ (∀ c k, cliRec w2 2 = some c → c.cmd = some k → False) ∧
+    cliRec (cliPostPoll (feed w2 q3.rx) q3.p.acc q3.p.envs) 2 = some c2 ∧ c2.cmd = some k2 ∧ (∀ n ∈ k2.names, ByteName n) ∧
+    (∃ c k', cliRec (runX w2 (q3 :: [q4, q5])) 2 = some c ∧ c.cmd = some k' ∧ k'.al = k2.al) ∧
+    cliRec (runX w2 (q3 :: ([q4, q5] ++ [q6]))) 2 = some c6 ∧ c6.cmd = none :=
+  ⟨inv2, alive6, idle2, hc2, hk2, k2_bytes, busy5, hc6, idle6⟩
+example : (runEvX w2 (q3 :: ([q4, q5] ++ [q6]))).map (fun ev => (ev.cid, ev.al, ev.node, ev.kind, ev.text)) =
+      [(1, 1, [97, 49], .state .on, bstr "on"), (2, 2, [97, 49], .state .off, bstr "off")] ∧
+    (hist w2 (q3 :: ([q4, q5] ++ [q6])) k2.al).map (fun ev => (ev.cid, ev.al, ev.node, ev.kind, ev.text)) =
+      [(2, 2, [97, 49], .state .off, bstr "off")] ∧
+    c6.toBuf = bstr "001 2\r\npowerman> 302 on:      \r\n302 off:     a1\r\n302 unknown: \r\n103 Query complete\r\npowerman> " :=
+  ⟨writes6, hist6, buf6⟩
+/-- the device does not answer (instead of pass `q4`, nine seconds pass): no write, one failed completion — `unknown: a1`
+    and the error code -/
+example : AliveX w1 (q2 :: ([q3] ++ [qLate])) ∧ cliRec (runX w1 (q2 :: ([q3] ++ [qLate]))) 1 = some cL ∧ cL.cmd = none ∧
+    hist w1 (q2 :: ([q3] ++ [qLate])) k1.al = [] ∧ runFinsX w1 (q2 :: ([q3] ++ [qLate])) 1 = [([65], .expfail)] ∧
+    cL.toBuf = bstr ("001 2\r\npowerman> 308 A: action timed out waiting for expected response\r\n" ++
+      "302 on:      \r\n302 off:     \r\n302 unknown: a1\r\n211 Query completed with errors\r\npowerman> ") :=
+  ⟨aliveL, hcL, idleL, histL, finsL, bufL⟩
+example : (entryOf ([] : List WEv) ['a', '1']).state = 0 ∧ (entryOf ([] : List WEv) ['a', '1']).val = none := by decide +kernel
+example : (entryOf (hist w1 (q2 :: ([q3] ++ [q4])) k1.al) ['a', '1']).state = 2 := by decide +kernel
+
+/-- **The match register outlives the query (`_counterexample` to "only if *during this very query* its device reported
+    that").**  Device `A` of the example with, in addition, a `beacon` script that is a `setplugstate` alone (no `expect`
+    before it; the parser accepts such a script).  Client 1's `status a1` has been answered `on` (world `B.w4`): the device's
+    match register still holds the subject `1 on` of that query's `expect`, its input buffer is empty.  In pass `B.q5`
+    the client sends `beacon a1`; the pass brings no event for the device's descriptor.  All hypotheses of
+    `C03_justified_one_pass` hold; the request is accepted and answered in this one pass; the history of its arglist is one
+    write, by the beacon action of this command, of the state `on` with the text `on` cut from the subject `1 on` — and the
+    client is told `on: a1` for the beacon, which the device never reported.  (In C: `dev->xmatch` is created once per
+    device and recycled only by `_process_expect`; `_process_setplugstate` reads whatever the last `expect` of *any* action
+    left.  A script whose `setplugstate` follows an `expect` of its own — every script in the distributed device files —
+    overwrites the register first.) -/
+theorem C03_stale_match_counterexample :
+    Inv B.w4 ∧ AliveX B.w4 [B.q5] ∧ (∀ c k, cliRec B.w4 1 = some c → c.cmd = some k → False) ∧
+    cliRec (cliPostPoll (feed B.w4 B.q5.rx) B.q5.p.acc B.q5.p.envs) 1 = some B.c5 ∧ B.c5.cmd = some B.k5 ∧
+    (B.k5.com, B.k5.names, B.k5.al) = (Com.beacon, [['a', '1']], 2) ∧ (∀ n ∈ B.k5.names, ByteName n) ∧
+    cliRec (runX B.w4 [B.q5]) 1 = some B.c6 ∧ B.c6.cmd = none ∧
+    hist B.w4 [B.q5] B.k5.al =
+      [{ dev := [65], cid := 1, al := 2, com := 21, plug := [49], node := [97, 49], kind := .state .on, text := bstr "on",
+         subject := some (bstr "1 on\n") }] ∧
+    (B.w4.devs.map fun nd => (nd.2.xmStr, nd.2.fromBuf)) = [(some (bstr "1 on\n"), [])] ∧
+    ((runX B.w4 [B.q5]).devs.map fun nd => nd.2.fromBuf) = [[]] ∧ B.q5.p.envs.find? (·.fd == 2000) = none ∧
+    B.c6.toBuf.drop B.c5.toBuf.length =
+      bstr "302 on:      a1\r\n302 off:     \r\n302 unknown: \r\n103 Query complete\r\npowerman> " :=
+  ⟨B.inv4, B.alive5, B.idle4, B.hc5, B.hk5, B.k5_is, B.k5_bytes, B.hc6, B.idle6, B.hist5, B.stale.1, B.stale.2.1, B.stale.2.2, B.buf6⟩
+
+end examples
 
 end Pm.Props.C03
